@@ -1655,6 +1655,13 @@ class Interp:
 
     def symbolic_for(self, st, it, env: Env) -> Flow:
         carried_names = [n for n in self.assigned_names(st.body) if env.lookup(n) is not MISSING]
+        # lists grown by `xs.append(e)` as a statement of the loop body are loop state too
+        appended = [s_.value.func.value.id for s_ in st.body if isinstance(s_, ast.Expr) and isinstance(s_.value, ast.Call)
+                    and isinstance(s_.value.func, ast.Attribute) and s_.value.func.attr == "append"
+                    and isinstance(s_.value.func.value, ast.Name)]
+        for n in appended:
+            if n not in carried_names and isinstance(env.lookup(n), list):
+                carried_names.append(n)
         pre = {n: env.lookup(n) for n in carried_names}
         benv = env.fork()
         carried_syms: Dict[str, sp.Symbol] = {}
@@ -1732,6 +1739,15 @@ class Interp:
                     # entries added per iteration stay as a family keyed by a term over the loop variable
                     orig.update({k: v for k, v in fin.items() if k not in orig})
                     env.vars[n] = orig
+                elif isinstance(orig, list) and isinstance(fin, list) and n in appended and appended.count(n) == 1 and not orig \
+                        and len(fin) == 1 and not fb.breaks and not fb.conts and not fb.returns:
+                    # xs = []; for x in it: xs.append(e(x))   is   [e(x) for x in it]
+                    e_ = to_term(fin[0])
+                    e_ = e_.xreplace({op("elem", itt, lv): op("elem", itt)})
+                    if lv in e_.free_symbols or any(sy in e_.free_symbols for sy in carried_syms.values()):
+                        env.vars[n] = self.note_unknown(f"list {n} appended with a loop-dependent element", st, env)
+                    else:
+                        env.vars[n] = op("comp_list", e_, itt, TRUE_T)
                 elif isinstance(orig, (list, dict)):
                     env.vars[n] = self.note_unknown(f"python container {n} mutated in symbolic loop", st, env) \
                         if fin != orig else orig
